@@ -44,7 +44,7 @@ func c14GenOp(rt *rapid.T, nPaths int, base [2]int, id string, prefix bool) *c14
 	b := base[o.path]
 	var kinds []string
 	if prefix {
-		kinds = []string{"write", "write", "write", "write", "write", "patch", "delete", "deletev", "destroy", "metawrite", "metawrite"}
+		kinds = []string{"write", "write", "write", "write", "write", "patch", "delete", "deletev", "destroy", "metawrite", "metawrite", "remount"}
 	} else {
 		kinds = []string{
 			"write", "write", "write", "write", "write", "write", "write", "write", "write", "write",
@@ -98,6 +98,7 @@ func c14GenOp(rt *rapid.T, nPaths int, base [2]int, id string, prefix bool) *c14
 			o.versions = append(o.versions, verNum("v1"))
 		}
 	case "metawrite":
+		o.dva = rapid.IntRange(0, 3).Draw(rt, "deleteVersionAfter") == 0
 		switch rapid.IntRange(0, 4).Draw(rt, "metaShape") {
 		case 0, 1, 2:
 			o.maxV = rapid.IntRange(1, 3).Draw(rt, "max_versions")
@@ -109,6 +110,7 @@ func c14GenOp(rt *rapid.T, nPaths int, base [2]int, id string, prefix bool) *c14
 		}
 	case "config":
 		o.casReq = rapid.IntRange(0, 1).Draw(rt, "cas_required")
+		o.dva = rapid.IntRange(0, 3).Draw(rt, "deleteVersionAfter") == 0
 	}
 	return o
 }
